@@ -2,4 +2,4 @@ import ShootVerif.Drive.Loop
 import ShootVerif.Drive.Retry
 import ShootVerif.Drive.Runtime
 open ShootVerif.Drive
-def main : IO Unit := runDriver [("retry", retryCase), ("conf", confCase), ("registry", registryCase), ("init", initCase), ("confhist", confHistCase)]
+def main : IO Unit := runDriver [("retry", retryCase), ("conf", confCase), ("registry", registryCase), ("init", initCase), ("confhist", confHistCase), ("clients", clientsCase)]
